@@ -3,7 +3,7 @@
    proposal with one transaction it does not hold, and asks the application for it.  Everything is computed with the
    executable model (vm_compute). *)
 From Coq Require Import ZArith List.
-From DbftV Require Import Gates NoPanic P10 P12 Replay D1 S1 SignLApi.
+From DbftV Require Import Gates NoPanic P10 P12 Replay D1 S1 V1 SignLApi SignLNoCV.
 From DbftV Require Spec_dbft Spec_antiMEV.
 Open Scope Z_scope.
 
@@ -112,6 +112,21 @@ Example a_call_after_the_signature :
                             zlen (Validators st) <= 65536 /\ nsign g <> 0%nat.
 Proof.
   destruct (lock_okb_sound s1_cfg (firstn 8 s1) (fst (nth 8 s1 (EReset 0, []))) (snd (nth 8 s1 (EReset 0, []))) 0 ltac:(vm_compute; reflexivity))
+    as (st & g & st' & tr & H). eauto 10.
+Qed.
+
+(* the hypotheses of "every ChangeView precedes the signature": the recorded history V1 is an epoch in which the node broadcasts a
+   ChangeView, follows the view change, and then signs (its first seven calls) *)
+Example an_epoch_with_a_change_view_and_a_signature :
+  exists st g g1 s p g2, Epoch v1_cfg st g /\ KS 0 g /\ zlen (Validators st) <= 65536 /\ nsign g = 1%nat /\
+                         g = g1 ++ (s, CBroadcast p) :: g2 /\ p_type p = ChangeViewT.
+Proof. exact (epoch_cv_okb_sound v1_cfg (firstn 7 v1) 0 ltac:(vm_compute; reflexivity)). Qed.
+(* ... and the call that follows the signature in V1 (a timeout) does broadcast something - a recovery message *)
+Example a_broadcast_after_the_signature :
+  exists st g ev sc st' tr, Epoch v1_cfg st g /\ continues ev /\ step v1_cfg st ev sc = Ok (st', tr) /\ KS 0 (g ++ tr) /\
+                            zlen (Validators st) <= 65536 /\ nsign g <> 0%nat.
+Proof.
+  destruct (lock_okb_sound v1_cfg (firstn 7 v1) (fst (nth 7 v1 (EReset 0, []))) (snd (nth 7 v1 (EReset 0, []))) 0 ltac:(vm_compute; reflexivity))
     as (st & g & st' & tr & H). eauto 10.
 Qed.
 
